@@ -1078,7 +1078,8 @@ class World:
             for m in cls.body:
                 if isinstance(m, ast.FunctionDef) and m.name == name and not any(
                         isinstance(d, ast.Attribute) and d.attr == 'setter' for d in m.decorator_list):
-                    fv = VFn('def', rel=self.rel, qualname='%s.%s' % (n.cls, name), node=m, self_val=recv)
+                    static = any(isinstance(d, ast.Name) and d.id == 'staticmethod' for d in m.decorator_list)
+                    fv = VFn('def', rel=self.rel, qualname='%s.%s' % (n.cls, name), node=m, self_val=None if static else recv)
                     return eng.call_def(st, fv, args, kwargs, node, starv, dstar)
         raise EngineError('%s:%d: method %s of %s' % (eng.rel, node.lineno, name, n.cls))
 
